@@ -31,7 +31,7 @@ static json op_j(const Op &o) {
     json j = {{"kind", o.kind}};
 #define F(name) if (o.name != d.name) j[#name] = o.name;
     F(slot) F(fact) F(equil) F(colperm) F(trans) F(refine) F(symmode) F(pivgrowth) F(condnum)
-    F(rowperm) F(droprule) F(ilunorm) F(milu) F(lwork) F(align) F(wsgarbage) F(nrhs) F(ldpad) F(rhs_seed)
+    F(rowperm) F(droprule) F(ilunorm) F(milu) F(lwork) F(align) F(wsgarbage) F(nrhs) F(ldpad) F(ldxpad) F(rhs_seed)
     F(storage) F(mat) F(reader) F(rsym) F(rbase0) F(rfmt) F(vchange) F(permc_seed) F(stages) F(handle)
 #undef F
     if (o.thresh != d.thresh) j["thresh"] = hexf(o.thresh);
@@ -46,7 +46,7 @@ static Op op_u(const json &j) {
     Op o; o.kind = j.at("kind");
 #define F(name) if (j.contains(#name)) o.name = j[#name].get<decltype(o.name)>();
     F(slot) F(fact) F(equil) F(colperm) F(trans) F(refine) F(symmode) F(pivgrowth) F(condnum)
-    F(rowperm) F(droprule) F(ilunorm) F(milu) F(lwork) F(align) F(wsgarbage) F(nrhs) F(ldpad) F(rhs_seed)
+    F(rowperm) F(droprule) F(ilunorm) F(milu) F(lwork) F(align) F(wsgarbage) F(nrhs) F(ldpad) F(ldxpad) F(rhs_seed)
     F(storage) F(mat) F(reader) F(rsym) F(rbase0) F(rfmt) F(vchange) F(permc_seed) F(stages) F(handle)
 #undef F
     if (j.contains("thresh")) o.thresh = unhexf(j["thresh"]);
